@@ -21,6 +21,7 @@ RULE = ( 'enumerated: stars of k = 2..5 wire ends x all 2^k first/second-end cho
 MIN_EVAL = dict (quick = 3000, thorough = 9000)
 ANCHORS  = ['Mininec.currents_as_mininec', 'Connected_Geobj.pulse_iter', 'Geobj._add_conn']
 ANCHORS_REQUIRED = ['Mininec.currents_as_mininec', 'Connected_Geobj.pulse_iter']
+ANCHORS_MIN = {'Mininec.currents_as_mininec': 0.95}
 ASSUMPTIONS = [ 'print precision: 7 digits per token, sums compared with 3e-6 * max |I| * number of terms'
               , 'pulse geometry (which half of which pulse lies on which wire end) is taken from the model; C02/C12 decide that geometry'
               ]
